@@ -108,7 +108,10 @@ def predict(cfg, rng, q=None, msgs=None):
     E_ = q.etabar ** 2 / q.curvature ** 2
     terms = np.abs(dvarphi_indep(q, q.sigma)) + np.abs((q.iota + q.helicity * q.nfp) * (E_ * E_ + 1 + q.sigma * q.sigma)) + np.abs(2 * E_ * (-q.spsi * q.torsion + q.I2 / q.B0) * q.G0 / q.B0)
     slack = 200 * np.finfo(float).eps * float(np.sqrt(np.sum(terms * terms))) * max(1.0, float(np.sqrt(q.nphi)))
-    if not (nrm <= 1e-9 + slack) and not warned:
+    own = q._residual(np.concatenate(([q.iota], q.sigma[1:])))
+    own_nrm = float(np.sqrt(np.sum(own * own)))
+    # a norm within a factor 100 of the threshold is attributed to the different arithmetic only if the code's own residual function agrees with the code's decision
+    if not (nrm <= 1e-9 + slack) and not warned and (own_nrm > 1e-9 or nrm > 1e-7):
         out.append(dict(key='silent', what='sigma equation residual norm %.3g > 1e-9 at the returned solution and no warning was logged' % nrm, cfg=jsonable(cfg)))
     n += 1
     if q.sigma[0] != q.sigma0:
